@@ -147,6 +147,12 @@ theorem invN_reach {c : Conf} (h : Reach C O st0 script picks c) : InvN C c := b
   · intro e he; cases he
   · intro _ h; cases h
 
+theorem invY_reach {c : Conf} (h : Reach C O st0 script picks c) : InvY c := by
+  refine reach_ind (P := InvY) ?_ ?_ c h
+  · exact ⟨True.intro, fun h => by cases h⟩
+  · intro c hc hy
+    exact invY_step C O c (invV_reach hc) hy
+
 theorem allowed_mandatory {cands : List Entry} {e : Entry} (he : e ∈ allowed cands)
     (hr : e.req = true) : ∀ e' ∈ cands, e'.req = true := by
   unfold allowed at he
